@@ -74,6 +74,12 @@ Theorem C11_chosen_spec : forall ls ss i p x,
 Proof. exact chosen_from_spec. Qed.
 Print Assumptions C11_chosen_spec.
 
+(* ... and lists them in block order (strictly increasing positions, so no transaction twice) *)
+Theorem C11_chosen_in_block_order : forall ls ss i,
+  Sorted.StronglySorted pos_lt (chosen_from i ls ss).
+Proof. exact chosen_from_sorted. Qed.
+Print Assumptions C11_chosen_in_block_order.
+
 (* extract_build: extraction of the canonical message gives the merkle root and exactly the chosen
    transactions in block order.  Needs: no two nodes of a level of the block's merkle tree are equal —
    otherwise an inner node has equal children and the CVE-2012-2459 rule (C12) rejects, see
